@@ -36,7 +36,8 @@ import pyfacts
 import sched
 
 ID = 'C18'
-LEAN_MODULES = ['Yaql.Props.C18', 'Yaql.Props.C18Objs', 'Yaql.Props.C18Gen', 'Yaql.Props.C18Eval']
+LEAN_MODULES = ['Yaql.Props.C18', 'Yaql.Props.C18Objs', 'Yaql.Props.C18Gen', 'Yaql.Props.C18Eval', 'Yaql.Props.EvalStore',
+                'Yaql.Props.C18Store']
 REQUIRED_THEOREMS = [
     'Yaql.Props.C18.isolation', 'Yaql.Props.C18.isolation_exact', 'Yaql.Props.C18.interleaving',
     'Yaql.Props.C18.isolation_benign_cache', 'Yaql.Props.C18.oblivious_of_denotation',
@@ -46,6 +47,10 @@ REQUIRED_THEOREMS = [
     'Yaql.Props.C18.shared_lazy_object_interferes',
     'Yaql.Props.C18.refMachine_readOnly', 'Yaql.Props.C18.eval_model_isolated',
     'Yaql.Props.C18.eval_model_returns_framed',
+    'Yaql.Props.C18.storeEval_frame', 'Yaql.Props.C18.evalS_writes_private', 'Yaql.Props.C18.evalS_isolated',
+    'Yaql.Props.EvalStore.log_disciplined', 'Yaql.Props.EvalStore.writes_fresh',
+    'Yaql.Props.EvalStore.store_prefix_unchanged', 'Yaql.Props.EvalStore.store_extends',
+    'Yaql.Props.EvalStore.hostEval_extends',
     'Yaql.Props.C18Gen.no_shared_writes', 'Yaql.Props.C18Gen.reachable_sites_modelled',
     'Yaql.Props.C18Gen.table_nonvacuous']
 TRUSTED = ['harness/sched.py (real threads blocked at scheduling points, released one at a time)',
@@ -54,11 +59,11 @@ TRUSTED = ['harness/sched.py (real threads blocked at scheduling points, release
            'internals (dict, sorted, itertools, re, datetime) touch no yaql state']
 ASSUMPTIONS = ['granularity of interleaving = one function dispatch / iterator step / key hash (the property\'s own '
                'quantifier); preemption between arbitrary bytecodes is covered only by the free-running stress',
-               'C18.eval_writes_private (evaluators over a mutable cell store, the shape of contexts.py) keeps its frame '
-               'hypothesis explicit: the reference evaluator of C04 is purely functional (contexts are immutable frame '
-               'chains), so it is instantiated as a Sched machine directly (C18Eval.eval_model_isolated, one step = one '
-               'statement) and C04.frame supplies what a returned context can contain']
-
+               'C18.eval_writes_private / eval_isolated are instantiated without hypotheses for the store-passing evaluator '
+               'model of the core fragment (Model/EvalStore.lean: mutable context cells as in contexts.py; C18Store.'
+               'storeEval_frame from EvalStore.store_extends / hostEval_extends) at call granularity (one step = a host\'s '
+               'create_child_context + evaluate, or one Function.__call__ in any context); interleavings inside a call are '
+               'explored on the real code; C18Eval keeps the purely functional C04 evaluator as a Sched machine']
 
 def generate():
     return pyfacts.run(['SharedWrites'])['SharedWrites']
@@ -1516,6 +1521,11 @@ def run(env, res):
             part_c(env, res, rng, hist, time.time() + (15 if tier == 'quick' else 90))
         if not hard(res):
             part_d(env, res, rng, hist)
+        if not hard(res):
+            # (G) what evaluations write: generated programs of the C04 fragment on instrumented context classes, alone
+            # and 2-4 at a time, against the store-passing evaluator model (props/evalstore.py)
+            from props import evalstore
+            evalstore.run(env, res, hist, ID, threads=True)
         # (E) the dynamic side of the generated table is part of (A): counted here
         hist['E_ownership'] = dict(context_writes_checked=stats_a.get('ctx_writes', 0),
                                    lazy_object_writes_checked=stats_a.get('lazy_writes', 0))
@@ -1785,6 +1795,10 @@ def directed(env, res, rng, gen, hist):
 
 def replay(env, res, case):
     kind = case.get('kind')
+    if case.get('part') == 'evalstore':
+        from props import evalstore
+        evalstore.run(dict(env, replay_case=case), res, res.extra.setdefault('histogram', {}), ID, threads=True)
+        return res
     if kind == 'stmt':
         owners = Owners()
         owners.install()
@@ -1864,7 +1878,10 @@ LEVEL_TEXT = ('Lean 4 theorems over a generic interleaving semantics (shared com
               'isolate (isolation, isolation_exact); shared writes confined to a memo table whose entries are a function of '
               'their key isolate as well, the table only grows by such entries (isolation_benign_cache, via interleaving + '
               'oblivious_of_denotation); an evaluator that satisfies the frame hypothesis writes only cells of its own '
-              '(eval_writes_private, eval_isolated). Instantiated for a small-step model of everything stateful in yaql - '
+              '(eval_writes_private, eval_isolated) - and the store-passing evaluator of the core fragment over mutable '
+              'context cells satisfies it (storeEval_frame: every write of an evaluation targets the context it allocated '
+              'last), so any number of threads making any sequence of its calls over one prepared store leave the shared '
+              'cells unchanged and return their solo results under every schedule (evalS_isolated). Instantiated for a small-step model of everything stateful in yaql - '
               'FrozenDict.__hash__, the three yaql.eval caches, dispatch, OrderingIterable, GroupAggregator, '
               'utils.memorize - objs_isolated / objs_results (results are an explicit schedule-independent function) and '
               'lazy_objects_private (with the exact condition: no lazy object reached through the shared context); negative '
@@ -1872,10 +1889,17 @@ LEVEL_TEXT = ('Lean 4 theorems over a generic interleaving semantics (shared com
               'C18Gen.no_shared_writes: every write site of the live yaql sources (AST walk, regenerated per run) is in an '
               'allowed class. The real code runs under a deterministic thread scheduler at dispatch / iterator-step / '
               'key-hash granularity (exhaustive, <=3 preemptions, random) and at line granularity (seeded) against the sequential baseline, the shared '
-              'context snapshot, the Lean machine under the same trace, and free-running under a 1 us switch interval.')
-LEVEL_NOTE = ('partial: (1) the core evaluator enters at statement granularity (C18Eval.eval_model_isolated over C04\'s purely '
-              'functional Model/Eval, plus C04.frame for returned contexts); the store-based eval_writes_private keeps its '
-              'frame hypothesis explicit; dispatch-level interleaving of the evaluator is explored on the real code; (2) the atomic step is one dispatch / iterator '
+              'context snapshot, the Lean machine under the same trace, and free-running under a 1 us switch interval; '
+              'with instrumented context classes, generated programs of the core fragment evaluated alone and 2-4 at a time '
+              'write only contexts their own evaluation created (never the shared one, never another thread\'s, never one '
+              'that already has a child), and the tree of contexts created / names written is the store model\'s.')
+LEVEL_NOTE = ('partial: (1) the core evaluator enters at call granularity: eval_writes_private / eval_isolated hold without '
+              'hypotheses for the store-passing evaluator over mutable context cells (C18Store.storeEval_frame, '
+              'evalS_isolated; one step = create_child_context + evaluate, or one Function.__call__), which refines the C04 '
+              'reference interpreter (EvalStore.refines_eval, audited under C09) and whose write log is compared with the '
+              'instrumented real context classes, alone and 2-4 evaluations at a time; C18Eval.eval_model_isolated keeps the '
+              'purely functional Model/Eval as a Sched machine; dispatch-level interleaving inside a call is explored on the '
+              'real code; (2) the atomic step is one dispatch / iterator '
               'step / key hash, preemption between arbitrary bytecodes is only stress-tested; (3) the classification rules '
               'of the write-site walker and the three hand-justified rows are trusted; C extension internals are trusted.')
 TECHNIQUE = ('Lean 4 proof (schedule induction over a generic machine, denotation + measure for benign caches) + per-run '
